@@ -414,6 +414,8 @@ def plan(N, kind, tier, struct_ok, seed, nvecs_ok=True):
         # outside the quantifier: a small sample of the lattice, crash detection and structural checks only
         yield {"init": {"kind": "given", "g": 0}, "dimorder": ident, "optdims": allm, "opts": P_LIGHT}
         yield {"init": {"kind": "random", "s": rs[0]}, "dimorder": ident[::-1], "optdims": allm, "opts": P_LIGHT[:1]}
+        yield {"init": {"kind": "given", "g": 1}, "dimorder": ident[::-1], "optdims": allm, "opts": [], "form": "array"}
+        yield {"init": {"kind": "warm", "g": 0, "j": 1}, "dimorder": ident, "optdims": allm, "opts": []}
         return
     full_T = [(ident, allm)]
     if thorough:
@@ -437,10 +439,19 @@ def plan(N, kind, tier, struct_ok, seed, nvecs_ok=True):
         opts = [P_LIGHT[i % 3]] if thorough else P_LIGHT
         i += 1
         yield {"init": {"kind": "given", "g": 0}, "dimorder": do, "optdims": od, "opts": opts}
+    # the weight dimension of a given guess: non-unit, mixed-sign weights (both tiers) ...
+    yield {"init": {"kind": "given", "g": 1}, "dimorder": ident, "optdims": allm,
+           "opts": P_LIGHT if thorough else P_LIGHT[:1], "form": "array"}
+    yield {"init": {"kind": "given", "g": 1}, "dimorder": ident[::-1], "optdims": list(range(1, N)),
+           "opts": P_LIGHT[:1], "form": "array"}
+    # ... and history depth 2: the guess is the very model an earlier cp_als call (j sweeps from guess g, same mode
+    # order and optimised modes) returned - a normal-form ktensor with data-dependent weights (warm restart)
+    warm = [(2, ident, allm, "default"), (1, ident[::-1], list(range(1, N)), "list")]
     if thorough:
-        yield {"init": {"kind": "given", "g": 1}, "dimorder": ident, "optdims": allm, "opts": P_LIGHT, "form": "array"}
-        yield {"init": {"kind": "given", "g": 1}, "dimorder": ident[::-1], "optdims": list(range(1, N)),
-               "opts": P_LIGHT[:1], "form": "array"}
+        warm += [(1, ident, allm, "list"), (3, ident[1:] + ident[:1], allm, "array"), (2, ident, [N // 2], "list")]
+    for j, do, od, form in warm:
+        yield {"init": {"kind": "warm", "g": 0, "j": j}, "dimorder": do, "optdims": od,
+               "opts": [P_LIGHT[(i + j) % 3]], "form": form}
     # other starting guesses
     inits = [{"kind": "random", "s": s} for s in rs]
     if kind != "sumtensor" and nvecs_ok:
@@ -511,13 +522,23 @@ def _sub(case, t, k, opt, adm):
             "stoptol": float(opt[2]), "k": int(k), "nopt": len(t["optdims"]), "adm": bool(adm)}
 
 
-def _make_guess(shape, R, ini, seed):
+def _make_guess(shape, R, ini, seed, warm=None):
+    """Fresh starting guess of a run: (ktensor handed to cp_als, (weights, factors) it denotes) or (None, None) when
+    the library generates the start.  kind 'warm': the object a real earlier cp_als call returned; `warm` = (fresh
+    data holder, trajectory key) of that earlier call, which runs j sweeps from the explicit guess g."""
     import pyttb as ttb
 
-    if ini["kind"] != "given":
+    if ini["kind"] not in ("given", "warm"):
         return None, None
     w, fs = guess_parts(shape, R, ini.get("g", 0), seed)
     K0 = ttb.ktensor([f.copy(order="F") for f in fs], w.copy())
+    if ini["kind"] == "warm":
+        X, t = warm
+        with contextlib.redirect_stdout(io.StringIO()):
+            K0 = ttb.cp_als(X, R, init=K0, maxiters=int(ini["j"]), stoptol=0.0, printitn=0,
+                            dimorder=list(t["dimorder"]), optdims=list(t["optdims"]))[0]
+        w = np.array(K0.weights, dtype=float, copy=True)
+        fs = [np.array(f, dtype=float, copy=True) for f in K0.factor_matrices]
     return K0, (w, fs)
 
 
@@ -530,7 +551,7 @@ def _execute(ctx, X, R, ini, K0, t, k, opt):
     import pyttb as ttb
 
     fixsigns, printitn, stoptol = opt
-    init = K0 if ini["kind"] == "given" else ini["kind"]
+    init = K0 if K0 is not None else ini["kind"]
     kw = {"stoptol": stoptol, "maxiters": k, "init": init, "printitn": printitn, "fixsigns": fixsigns}
     form = t.get("form", "list")
     if form == "default":           # identity order, all modes: the documented defaults
@@ -586,8 +607,16 @@ def _run_T(ctx, case, d, name, A, info, R, t, K, seed):
         """Run + all single-state checks.  Returns a state dict or None."""
         X = build_holder(name, d, A)
         snapX = O.snapshot(X)
-        K0, gp = _make_guess(shape, R, ini, seed)
+        try:
+            K0, gp = _make_guess(shape, R, ini, seed, warm=(build_holder(name, d, A), t) if ini["kind"] == "warm" else None)
+        except Exception:  # noqa: BLE001
+            # the earlier call of a warm restart is itself a run of the given-guess trajectory with the same mode
+            # order / optimised modes, where a failure is reported; here there is no guess to continue from
+            ctx.count("warm_start_unavailable")
+            return None
         snapK = O.snapshot(K0) if K0 is not None else None
+        if gp is not None and not np.array_equal(gp[0], np.ones(R)):
+            ctx.flag("guess:nonunit_weights:" + ini["kind"])
         rec = Recorder(X) if record else None
         sub = _sub(case, t, k, opt, info.struct_ok)
 
@@ -664,7 +693,7 @@ def _run_T(ctx, case, d, name, A, info, R, t, K, seed):
         if not echo:
             fail("wrong_params", f"params echo {p!r}")
         # ---- the returned guess is the guess that was used
-        if ini["kind"] == "given":
+        if K0 is not None:
             if Minit is not K0:
                 fail("init_not_returned", "the returned initial guess is not the caller's object")
             U0 = [f.copy() for f in gp[1]]
@@ -955,7 +984,7 @@ def _check_variant(ctx, case, t, info, name, st, base, k, opt):
 def finalize(tier, seed, totals):
     need = ["adm:tensor", "adm:sptensor", "adm:ttensor", "adm:sumtensor", "branch:printing", "branch:norm_unavailable",
             "stop:early", "stop:maxiters", "init:nvecs:arpack", "init:random:uniform_stream", "fixsigns:would_flip",
-            "inadm:struct"]
+            "inadm:struct", "guess:nonunit_weights:given", "guess:nonunit_weights:warm"]
     if not totals.cases:
         return
     for f in need:
